@@ -596,10 +596,11 @@ impl Fiber {
     ));
     allocator.push_root(stack);
 
-    // Assign the frame to the start of the stack and write in the fun
+    // Assign the frame to the start of the stack and move over the callee
+    // slot, which holds the receiver when a method was launched
     let stack_start = stack.as_mut_ptr();
     unsafe {
-      ptr::write(stack_start, val!(fun));
+      ptr::write(stack_start, *parent_stack_top);
     }
     frame.store_stack_start(stack_start);
 
